@@ -227,6 +227,19 @@ def insitu_one(ctx, rng, i, k, idx, a2, vals, signed, io_):
             if not got <= set(prec):
                 ctx.violation("insitu:collapsed-wrapped", "collapsed(%r) produced values %r that are not in the precedence "
                               "list: the chosen output dtype wrapped them" % (prec, sorted(got - set(prec))[:4]), {"a": a2, "precedence": prec})
+            # a mapping that renames the common value to something outside the range of the other values,
+            # listed at a non-last position of the precedence
+            far = int(rng.choice([300, 70000, -1, -200, 2 ** 33])) if max(abs(v) for v in vals) < 2 ** 62 else None
+            if far is not None and far not in vals and len(prec) >= 2:
+                mp = {int(idx.common): far}
+                prec2 = [p for p in prec if p != idx.common]
+                prec2.insert(int(rng.integers(0, max(1, len(prec2)))), far)
+                col2 = idx.collapsed(prec2, mp)
+                got2 = set(int(v) for v in col2.to_array(dtype=numpy.int64).ravel().tolist())
+                ctx.count("consequence:collapsed_with_mapping_checked")
+                if not got2 <= set(prec2):
+                    ctx.violation("insitu:collapsed-wrapped", "collapsed(%r, %r) produced values %r not in the precedence list"
+                                  % (prec2, mp, sorted(got2 - set(prec2))[:4]), {"a": a2, "precedence": prec2, "mapping": mp})
             if not signed:
                 # the widest coordinate deliberately sits in the FIRST key and in either position
                 order = sorted(range(len(vals)), key=lambda j: -vals[j])
